@@ -28,6 +28,7 @@ func main() {
 	runRecord()
 	runVariance()
 	runBuffers()
+	runLongerPatterns()
 	chk.Finish()
 }
 
